@@ -78,38 +78,46 @@ theorem useCounts_iff {cfg : Config} (h : WFA cfg) (p m : Path) :
   · rintro hn ⟨V, hV, hp, g, hg, hh⟩
     exact hn ⟨V, hV, hp, g, hg, (hit_iff (h.normalI _ hV g hg) p).mp hh⟩
 
-/-- hypotheses of the C01 theorems when target paths may carry one trailing separator -/
+/-- hypotheses of the C01 theorems when paths may carry one trailing separator -/
 structure WFAD (cfg : Config) : Prop where
   nodup : (cfg.map (fun t => dirOf t.path)).Nodup
   normalT : ∀ t ∈ cfg, Normal (dirOf t.path)
-  normalU : ∀ t ∈ cfg, ∀ u ∈ t.uses, Normal u
-  normalI : ∀ t ∈ cfg, ∀ g ∈ t.ignores, Normal g
+  normalU : ∀ t ∈ cfg, ∀ u ∈ t.uses, Normal (dirOf u)
+  normalI : ∀ t ∈ cfg, ∀ g ∈ t.ignores, Normal (dirOf g)
+
+/-- a change is never the directory named by a slash-terminated target path / uses / ignores entry -/
+structure ChangeOk (cfg : Config) (p : Path) : Prop where
+  target : ∀ T ∈ cfg, T.path.getLast? = some sep → p ≠ dirOf T.path
+  uses : ∀ T ∈ cfg, ∀ u ∈ T.uses, u.getLast? = some sep → p ≠ dirOf u
+  ignores : ∀ T ∈ cfg, ∀ g ∈ T.ignores, g.getLast? = some sep → p ≠ dirOf g
 
 theorem WFAD.toWFD {cfg : Config} (h : WFAD cfg) : WFD cfg := ⟨h.nodup, h.normalT⟩
 
 theorem WFA.toWFAD {cfg : Config} (h : WFA cfg) : WFAD cfg :=
-  ⟨h.toWF.toWFD.nodup, h.toWF.toWFD.normal, h.normalU, h.normalI⟩
+  ⟨h.toWF.toWFD.nodup, h.toWF.toWFD.normal,
+   fun t ht u hu => by rw [dirOf_normal (h.normalU t ht u hu)]; exact h.normalU t ht u hu,
+   fun t ht g hg => by rw [dirOf_normal (h.normalI t ht g hg)]; exact h.normalI t ht g hg⟩
 
-theorem ign_iff_dir {cfg : Config} (h : WFAD cfg) {T : Target} (hT : T ∈ cfg) (p : Path) :
-    T.path ∈ ignoreTargets cfg p ↔ Ign T p := by
+theorem ign_iff_dir {cfg : Config} (h : WFAD cfg) {T : Target} (hT : T ∈ cfg) {p : Path} (hp : ChangeOk cfg p) :
+    T.path ∈ ignoreTargets cfg p ↔ IgnD T p := by
   rw [mem_ignoreTargets]
   constructor
-  · rintro ⟨T', hT', hp, g, hg, hh⟩
-    have : T' = T := path_inj h.toWFD.nodupPath hT' hT hp
+  · rintro ⟨T', hT', hpth, g, hg, hh⟩
+    have : T' = T := path_inj h.toWFD.nodupPath hT' hT hpth
     subst this
-    exact ⟨g, hg, (hit_iff (h.normalI _ hT' g hg) p).mp hh⟩
+    exact ⟨g, hg, (hit_dir (h.normalI _ hT' g hg) (hp.ignores _ hT' g hg)).mp hh⟩
   · rintro ⟨g, hg, hw⟩
-    exact ⟨T, hT, rfl, g, hg, (hit_iff (h.normalI _ hT g hg) p).mpr hw⟩
+    exact ⟨T, hT, rfl, g, hg, (hit_dir (h.normalI _ hT g hg) (hp.ignores _ hT g hg)).mpr hw⟩
 
-theorem useCounts_iff_dir {cfg : Config} (h : WFAD cfg) (p m : Path) :
-    m ∉ ignoreTargets cfg p ↔ UseCounts cfg p m := by
-  unfold UseCounts
+theorem useCounts_iff_dir {cfg : Config} (h : WFAD cfg) {p : Path} (hp : ChangeOk cfg p) (m : Path) :
+    m ∉ ignoreTargets cfg p ↔ UseCountsD cfg p m := by
+  unfold UseCountsD
   rw [mem_ignoreTargets]
   constructor
-  · rintro hn ⟨V, hV, hp, g, hg, hw⟩
-    exact hn ⟨V, hV, hp, g, hg, (hit_iff (h.normalI _ hV g hg) p).mpr hw⟩
-  · rintro hn ⟨V, hV, hp, g, hg, hh⟩
-    exact hn ⟨V, hV, hp, g, hg, (hit_iff (h.normalI _ hV g hg) p).mp hh⟩
+  · rintro hn ⟨V, hV, hpth, g, hg, hw⟩
+    exact hn ⟨V, hV, hpth, g, hg, (hit_dir (h.normalI _ hV g hg) (hp.ignores _ hV g hg)).mpr hw⟩
+  · rintro hn ⟨V, hV, hpth, g, hg, hh⟩
+    exact hn ⟨V, hV, hpth, g, hg, (hit_dir (h.normalI _ hV g hg) (hp.ignores _ hV g hg)).mp hh⟩
 
 /-- the nesting lookup between two configured targets -/
 theorem hit_targets {cfg : Config} (h : WFAD cfg) {T N : Target} (hT : T ∈ cfg) (hN : N ∈ cfg) :
